@@ -204,6 +204,8 @@ void htp_tx_destroy_incomplete(htp_tx_t *tx) {
         htp_table_destroy(tx->response_headers);
     }
 
+    htp_hook_destroy(tx->hook_response_body_data);
+
     // If we're using a private configuration structure, destroy it.
     if (tx->is_config_shared == HTP_CONFIG_PRIVATE) {
         htp_config_destroy(tx->cfg);
